@@ -208,8 +208,9 @@ def _ours_loop_form(ctx, facts, body, it, r, sub, name, props):
         for bb, c2 in it.calls.items():
             if bb in lp.blocks and call_name(c2.term) == 'reset_remove' and len(c2.args) == 2:
                 if _entry_clock_match(c2.args[0].val, r, sub, 1) and is_field_of_param(c2.args[1].val, 2, (r['clock'],)):
-                    rc = Reach(facts, body, Evaluator(facts, classify=classify, bool_atom=atom, assumption={'theirs_has': False, 'drop': LT}))
-                    if lp.must(rc, [bb]):
+                    # .. in every case in which the entry is kept: other is strictly behind it (Lt) or concurrent with it (None)
+                    if all(lp.must(Reach(facts, body, Evaluator(facts, classify=classify, bool_atom=atom, assumption={'theirs_has': False, 'drop': o_})), [bb])
+                           for o_ in (LT, NONE)):
                         good = True
         ctx.check(good, name + '/subtract', body, 'kept entry clock = entry clock − other.clock',
                   'the witness clock of a kept entry is not reduced by other.clock: dots other has seen and removed stay as witnesses', line=line, props=props)
@@ -299,10 +300,14 @@ def merge_drop(ctx):
                 ctx.fail(name, cb, errs[0], line=line, details=det, props=props)
             else:
                 ctx.ok(name, cb, 'dropped exactly under other.clock >= entry clock', line=line, details=det, props=props)
-            # kept value: clock' = clock − other.clock
-            evr = Evaluator(facts, classify=classify, bool_atom=atom, assumption={'theirs_has': False, 'drop': LT})
-            rc = Reach(facts, cb, evr)
-            kept = [alt for b, alt in keep_sites if b in rc.reachable]
+            # kept value: clock' = clock − other.clock, in every case in which the entry is kept (other strictly behind it, or
+            # concurrent with it)
+            kept, rcs_ = [], []
+            for o_ in (LT, NONE):
+                evr = Evaluator(facts, classify=classify, bool_atom=atom, assumption={'theirs_has': False, 'drop': o_})
+                rc = Reach(facts, cb, evr)
+                rcs_.append(rc)
+                kept += [alt for b, alt in keep_sites if b in rc.reachable and alt not in kept]
             good = False
             seen = []
             nbad = 0
@@ -325,7 +330,7 @@ def merge_drop(ctx):
                 elif v[0] == 'const':
                     # retain form: the element is updated in place; look for reset_remove(entry clock, other.clock)
                     for b2, c2 in cit.calls.items():
-                        if call_name(c2.term) == 'reset_remove' and b2 in rc.reachable:
+                        if call_name(c2.term) == 'reset_remove' and all(b2 in rc_.reachable and rc_.must_pass([b2]) for rc_ in rcs_):
                             a0, a1 = S(c2.args[0].val), S(c2.args[1].val)
                             if _entry_clock_match(a0, r, sub, 1) and is_field_of_param(a1, 2, (r['clock'],)):
                                 good = True
